@@ -45,8 +45,48 @@ DECODERS = [
 RATIOS = {'hours': 24, 'minutes': 1440, 'seconds': 86400}
 
 
+def check_step_from_flags(ctx, rule='R-STEPDATE'):
+    """a step attribute derived from the first begin and end flags has to look at the date column as well: the HHMMSS column alone
+    gives 0 - 230000 for a step from 23:00 to midnight, and getTimes(bounds=True) then ends a day early"""
+    from .. import paths as _paths
+    ctx.rule(rule, 'CAMx readers: a TSTEP attribute computed from the first begin / end flags uses the date column ([.., 0]) together with the time column ([.., 1])')
+    n = 0
+    for m in ctx.src.all_modules():
+        if not (m.relpath.startswith('camxfiles/') and m.relpath.endswith('/Memmap.py')):
+            continue
+        for q, fn in sorted(m.functions.items()):
+            if '<locals>' in q:
+                continue
+            for st in iter_stmts(fn.body):
+                if not (isinstance(st, ast.Assign) and any(isinstance(t, ast.Attribute) and t.attr == 'TSTEP' and isinstance(t.value, ast.Name) and t.value.id == 'self' for t in st.targets)):
+                    continue
+                try:
+                    val = _paths.subst(st.value, _paths.dominating_env(fn, st))
+                except AnalysisError:
+                    val = st.value
+                flagsubs = [x for x in ast.walk(val) if isinstance(x, ast.Subscript) and 'flag' in norm(x.value).lower()]
+                if not flagsubs or not any(isinstance(x, ast.BinOp) and isinstance(x.op, ast.Sub) for x in ast.walk(val)):
+                    continue
+                n += 1
+                cols = set()
+                for x in flagsubs:
+                    last = x.slice.elts[-1] if isinstance(x.slice, ast.Tuple) and x.slice.elts else x.slice
+                    if isinstance(last, ast.Constant) and last.value in (0, 1):
+                        cols.add(last.value)
+                    elif isinstance(last, ast.Slice):
+                        cols.update((0, 1))
+                where = 'src/PseudoNetCDF/%s %s' % (m.relpath, q)
+                if 1 in cols and 0 not in cols:
+                    ctx.violation(Finding(rule, m.relpath, q, st, 'TSTEP is the difference of the HHMMSS columns of the first end and begin flags; the dates are ignored, so a file whose first step '
+                                          'runs from 23:00 to 00:00 gets TSTEP = -230000 and getTimes(bounds=True) puts the last bound 23 hours before the last step'))
+                else:
+                    ctx.ok(rule, q, where, 'columns used: %s' % sorted(cols))
+    ctx.count('TSTEP attributes computed from flags', n)
+
+
 def run(ctx):
     src = ctx.src
+    check_step_from_flags(ctx)
     for r, d in (('R-UNITTABLE', 'incrdenom rows: hours/minutes/seconds = 24/1440/86400 x days, years x yeardays = days'),
                  ('R-CALTABLE', 'calendar alias -> reference year of matching length'),
                  ('R-TIMEOFDAY', 'sub-day part of the offset reaches the output in 365/366-day calendars'),
